@@ -268,11 +268,14 @@ def run_shard(spec):
                     # as JSON (a state variable holding bytes, a set, ...) is legitimately refused by serialising caches
                     try:
                         json.dumps(st.metadata)
+                        from liquer.state_types import encode_state_data
+
+                        encode_state_data(value)    # e.g. a dictionary holding a data frame has no default encoding
                         excusable = False
                     except Exception:
                         excusable = True
                     if excusable:
-                        env.count("cache_copy_not_kept_unserialisable_metadata")
+                        env.count("cache_copy_not_kept_unserialisable_result")
                     else:
                         viol("cache_copy.missing", "cache keeps no metadata for successful %r" % q)
                 else:
